@@ -157,7 +157,13 @@ func (m *C02) Before(w *world.World, a *world.Action) {
 	if !bytes.Equal(world.Now(a.From, host.PacketCommitmentKey(k.Src, k.Dst, k.Seq)), world.Sha(p.Data)) {
 		return
 	}
-	if world.HasReceipt(on, k) || k.Seq <= world.CleanPoint(on, k.Src, k.Dst) {
+	// "cleaned" is decided by the source chain, the only place a clean can originate: no other chain's
+	// clean point may be ahead of it
+	cleanedBy := on
+	if src := w.Chain(k.Src); src != nil {
+		cleanedBy = src
+	}
+	if world.HasReceipt(on, k) || k.Seq <= world.CleanPoint(cleanedBy, k.Src, k.Dst) {
 		return
 	}
 	if clientStatus(on, a.From.Name) != exported.Active {
@@ -286,7 +292,13 @@ func (m *C03) After(w *world.World, a *world.Action) {
 			got := world.Now(a.On, host.PacketAcknowledgementKey(p.SourceChain, p.DestinationChain, p.Sequence))
 			m.R.Judge("recorded-ack-vs-returned", p.Port, len(cb.Ack) == 0, a.Mut)
 			m.R.Count("recorded-ack-checked", 1)
-			if len(cb.Ack) == 0 || !bytes.Equal(got, world.Sha(cb.Ack)) {
+			if len(cb.Ack) == 0 {
+				// no acknowledgement yet (an application may write it later): nothing may be recorded now
+				m.R.Count("recv-without-ack-from-app", 1)
+				if got != nil {
+					violate(w, m.R, "empty-ack-recorded", map[string]string{"kind": a.Kind}, fmt.Sprintf("app returned an empty acknowledgement, stored hash %x", got))
+				}
+			} else if !bytes.Equal(got, world.Sha(cb.Ack)) {
 				violate(w, m.R, "recorded-ack-differs-from-returned", map[string]string{"port": p.Port},
 					fmt.Sprintf("app returned %q, stored hash %x", cb.Ack, got))
 			}
